@@ -124,6 +124,10 @@ def scan_assumptions(spec):
                 out.append('assumed higher-order contract (used by callers, not proved): %s iterates %s' % (tgt, c.extra.get('arg', '')))
             if c.extra.get('assumed'):
                 out.append('assumed clause (used by callers, not proved): %s %s' % (tgt, c.label or c.kind))
+            if c.kind in ('onlock', 'onrelease'):
+                out.append('assumed about the state other goroutines leave behind (table-interference mode, %s): %s %s -- the '
+                           'representation invariant without its sequential parts and the immutability of table headers; every '
+                           'operation is proved to preserve that invariant in sequential mode' % (c.kind, tgt, c.label or ''))
     return out
 
 
